@@ -149,6 +149,8 @@ def truthy(v):
         return v.nonempty()
     if isinstance(v, SObj):
         return True
+    if type(v).__name__ == 'AbstractFn':
+        return True
     return bool(v)
 
 
@@ -323,7 +325,7 @@ class SList(SeqBase):
         self.parents = tuple(parents)       # z3 index terms of enclosing lists
         if length is None:
             if parents:
-                f = z3.Function(name + '.len', *([z3.IntSort()] * len(parents)), z3.IntSort())
+                f = z3.Function(name + '.len', *[p.sort() for p in parents], z3.IntSort())
                 length = f(*parents)
             else:
                 length = z3.Int(name + '.len')
